@@ -1,1 +1,78 @@
-fn main() {}
+// The executable every generated monorail command resolves to (through a symlink named after the
+// command).  It records how it was started and does what the scenario script tells it to:
+//   $VHELPER_DIR/script.json : { "<command>|<target>": { "exit": n, "sleep_ms": n, "barrier": k,
+//                                 "chunks": [[stream(1|2), "<hex bytes>", pause_ms_after], ...] } , "*": {...} }
+//   $VHELPER_DIR/trace/<unique>.start.json / .end.json : argv (hex), cwd, command, monotonic ns, run number
+use serde_json::{json, Value};
+use std::io::Write;
+use std::path::{Path, PathBuf};
+
+fn now_ns() -> u128 {
+    let mut ts = libc::timespec { tv_sec: 0, tv_nsec: 0 };
+    unsafe { libc::clock_gettime(libc::CLOCK_MONOTONIC, &mut ts) };
+    (ts.tv_sec as u128) * 1_000_000_000 + ts.tv_nsec as u128
+}
+fn hex(b: &[u8]) -> String { b.iter().map(|x| format!("{:02x}", x)).collect() }
+fn unhex(s: &str) -> Vec<u8> {
+    (0..s.len() / 2).filter_map(|i| u8::from_str_radix(&s[2 * i..2 * i + 2], 16).ok()).collect()
+}
+
+fn main() {
+    use std::os::unix::ffi::OsStrExt;
+    let start = now_ns();
+    let args: Vec<std::ffi::OsString> = std::env::args_os().collect();
+    let dir = match std::env::var_os("VHELPER_DIR") { Some(d) => PathBuf::from(d), None => std::process::exit(0) };
+    let cwd = std::env::current_dir().unwrap_or_default();
+    let root = std::env::var_os("VHELPER_ROOT").map(PathBuf::from).unwrap_or_default();
+    let target = cwd.strip_prefix(&root).map(|p| p.to_path_buf()).unwrap_or_else(|_| cwd.clone());
+    let target_s = String::from_utf8_lossy(target.as_os_str().as_bytes()).to_string();
+    let arg0 = Path::new(&args[0]);
+    let command = arg0.file_stem().map(|s| String::from_utf8_lossy(s.as_bytes()).to_string()).unwrap_or_default();
+    let run_no = std::env::var("VERIF_RUN_NO").unwrap_or_default();
+    let uniq = format!("{}-{}", std::process::id(), start);
+    let tdir = dir.join("trace");
+    let _ = std::fs::create_dir_all(&tdir);
+    let base = json!({
+        "command": command, "target": target_s, "argv0": hex(args[0].as_bytes()),
+        "argv": args[1..].iter().map(|a| hex(a.as_bytes())).collect::<Vec<_>>(),
+        "cwd": hex(cwd.as_os_str().as_bytes()), "run_no": run_no, "start_ns": start.to_string(), "pid": std::process::id(),
+    });
+    let _ = std::fs::write(tdir.join(format!("{}.start.json", uniq)), base.to_string());
+
+    let script: Value = std::fs::read_to_string(dir.join("script.json")).ok()
+        .and_then(|s| serde_json::from_str(&s).ok()).unwrap_or(json!({}));
+    let key = format!("{}|{}", command, target_s);
+    let ins = if !script[&key].is_null() { script[&key].clone() } else { script["*"].clone() };
+
+    let mut code = ins["exit"].as_i64().unwrap_or(0) as i32;
+    if let Some(k) = ins["barrier"].as_u64() {
+        let bdir = dir.join("barrier").join(&command).join(ins["barrier_id"].as_str().unwrap_or("g"));
+        let _ = std::fs::create_dir_all(&bdir);
+        let _ = std::fs::write(bdir.join(&uniq), b"");
+        let deadline = now_ns() + 30_000_000_000u128;
+        loop {
+            let n = std::fs::read_dir(&bdir).map(|d| d.count()).unwrap_or(0) as u64;
+            if n >= k { break; }
+            if now_ns() > deadline { code = 99; break; }
+            std::thread::sleep(std::time::Duration::from_millis(5));
+        }
+    }
+    if let Some(chunks) = ins["chunks"].as_array() {
+        let so = std::io::stdout(); let se = std::io::stderr();
+        for c in chunks {
+            let data = unhex(c[1].as_str().unwrap_or(""));
+            if c[0].as_u64() == Some(2) { let mut h = se.lock(); let _ = h.write_all(&data); let _ = h.flush(); }
+            else { let mut h = so.lock(); let _ = h.write_all(&data); let _ = h.flush(); }
+            if let Some(ms) = c[2].as_u64() { if ms > 0 { std::thread::sleep(std::time::Duration::from_millis(ms)); } }
+        }
+    } else if ins["quiet"].as_bool() != Some(true) {
+        println!("run={} cmd={} target={} out", run_no, command, target_s);
+        eprintln!("run={} cmd={} target={} err", run_no, command, target_s);
+    }
+    if let Some(ms) = ins["sleep_ms"].as_u64() { std::thread::sleep(std::time::Duration::from_millis(ms)); }
+    let end = now_ns();
+    let mut rec = base.clone();
+    rec["end_ns"] = json!(end.to_string()); rec["exit"] = json!(code);
+    let _ = std::fs::write(tdir.join(format!("{}.end.json", uniq)), rec.to_string());
+    std::process::exit(code);
+}
